@@ -473,7 +473,21 @@ func vfC17Do(t *testing.T, s *vfutil.Session, c *vfC17Case, tag int, src string)
 	// readable position" (e.g. an _offset field without its _runid field: GetCheckpoint answers run id
 	// "?") into a position — a start would then continue the stream from an offset nobody vouches for,
 	// in a database it was not written in. Offset -1 (the placeholder of a new key) is no position.
-	if c.kind == "u" && !err0 && !p0.ok && len(c.ids) == 2 && c.ids[0] != c.ids[1] {
+	localFresh := true
+	resolved := ""
+	if len(c.ids) > 0 {
+		resolved = vfResolve(c.st.Hash, c.ids)
+	}
+	for _, it := range c.st.Items {
+		if it.Key == c.local && resolved != c.local {
+			for _, f := range it.Fields {
+				if rid, _ := vfSplitField(f[0]); vfIn(c.ids, rid) {
+					localFresh = false // (a stale position already stored under the new key is adopted: other class)
+				}
+			}
+		}
+	}
+	if c.kind == "u" && !err0 && !p0.ok && len(c.ids) == 2 && c.ids[0] != c.ids[1] && localFresh {
 		for k := 1; k < len(run.sp); k++ {
 			pk, errk := vfParsePos(run.sp[k])
 			if !errk && pk.ok && pk.off >= 0 {
